@@ -3,7 +3,7 @@
    semantics Model/SqlSpecAgg.v, i.e. the property itself (spec_ok).
    Evaluated by vm_compute; definitions only. *)
 From Coq Require Import ZArith List Bool.
-From TV Require Export Model.SqlSpecAgg Model.AggImpl Model.AggClass.
+From TV Require Export Model.SqlSpecAgg Model.AggImpl Model.AggClass Model.AggJoin.
 Import ListNotations.
 Open Scope Z_scope.
 
@@ -12,7 +12,11 @@ Open Scope Z_scope.
 Inductive aout := ARows (rs : list row) | AErr | APanic | ABad.
 
 (* SELECT <q_sel> FROM t [WHERE ..] [GROUP BY ..] [HAVING ..] over table t *)
-Inductive case := Agg (t : table) (q : aquery) (o : aout).
+Inductive case :=
+| Agg (t : table) (q : aquery) (o : aout)
+(* SELECT <q_sel> FROM t JOIN u ON t.<lk> = u.<rk> [GROUP BY ..]; q is over the joined row (the
+   columns of t, then those of u) *)
+| AggJ (l r : table) (lk rk : nat) (q : aquery) (o : aout).
 
 (* the same value up to the sign of a zero double (f64::min / max and x + (-x) may give either) *)
 Definition val_same (a b : value) : bool :=
@@ -38,35 +42,43 @@ Fixpoint bag_same (a b : list row) : bool :=
   end.
 
 (* does the model reproduce the implementation on this case? *)
+Definition agrees (m : mres) (o : aout) : bool :=
+  match m, o with
+  | MRows ms, ARows rs => bag_same ms rs
+  | MPanic, APanic => true
+  | _, _ => false
+  end.
 Definition model_agrees (c : case) : bool :=
   match c with
-  | Agg t q o =>
-      match model_query q t, o with
-      | MRows ms, ARows rs => bag_same ms rs
-      | MPanic, APanic => true
-      | _, _ => false
-      end
+  | Agg t q o => agrees (model_query q t) o
+  | AggJ l r lk rk q o => agrees (model_join_query l r lk rk q) o
   end.
 
 (* does the implementation's behaviour satisfy the property itself on this case?  A panic never
    does; where the reference makes no demand anything else is accepted. *)
-Definition spec_ok (c : case) : bool :=
-  match c with
-  | Agg t q o =>
-      match o with
-      | APanic | ABad => false
-      | _ =>
-          match spec_query q t with
-          | SNoDemand => true
-          | SError => match o with AErr => true | _ => false end
-          | SRows rs => match o with ARows os => bag_equiv rs os | _ => false end
-          end
+Definition satisfies (s : sres) (o : aout) : bool :=
+  match o with
+  | APanic | ABad => false
+  | _ =>
+      match s with
+      | SNoDemand => true
+      | SError => match o with AErr => true | _ => false end
+      | SRows rs => match o with ARows os => bag_equiv rs os | _ => false end
       end
   end.
+Definition spec_ok (c : case) : bool :=
+  match c with
+  | Agg t q o => satisfies (spec_query q t) o
+  | AggJ l r lk rk q o => satisfies (spec_join_query l r lk rk q) o
+  end.
 
-(* the recorded finding class of the case (Model/AggClass.v); 0 = none *)
+(* the recorded finding class of the case (Model/AggClass.v); 0 = none; 8 = an aggregate over a join
+   (computed by the hand-written path of Model/AggJoin.v) *)
 Definition known_class (c : case) : Z :=
-  match c with Agg t q _ => q_class q t end.
+  match c with
+  | Agg t q _ => q_class q t
+  | AggJ _ _ _ _ _ _ => 8
+  end.
 
 Fixpoint failures_from (i : Z) (cs : list case) : list (Z * bool * bool * Z) :=
   match cs with
